@@ -70,6 +70,19 @@ def showMat {β : Type} (sh : β → String) (X : FlatMat β) : String :=
   let rows := X.map fun p => toString p.1 ++ " " ++ " ".intercalate (p.2.map sh)
   s!"{X.length} {w} " ++ " ".intercalate rows
 
+def pRat : P Rat := do
+  let t ← tok
+  match t.splitOn "/" with
+  | [a] => match a.toInt? with
+    | some n => pure (n : Rat)
+    | none => throw s!"rat expected: {t}"
+  | [a, b] => match a.toInt?, b.toNat? with
+    | some n, some d => pure ((n : Rat) / (d : Rat))
+    | _, _ => throw s!"rat expected: {t}"
+  | _ => throw s!"rat expected: {t}"
+
+def showRat (r : Rat) : String := if r.den == 1 then toString r.num else s!"{r.num}/{r.den}"
+
 def runP {β : Type} (p : P β) (toks : List String) : Except String (β × List String) := p.run toks
 
 end Pk
